@@ -129,6 +129,10 @@ fn mutations(v: &Value, path: &str, out: &mut Vec<(String, Value)>, root: &Value
                 format!("{s}x")
             };
             out.push((format!("{path}: string changed"), setter(root, Value::String(nv))));
+            if s.chars().all(|c| c.is_ascii_hexdigit()) && s.chars().any(|c| c.is_ascii_lowercase()) {
+                // the same bytes in another spelling: the parser keeps the spelling, so the signed form must change with it
+                out.push((format!("{path}: hex digits changed to upper case"), setter(root, Value::String(s.to_ascii_uppercase()))));
+            }
         }
         Value::Number(n) => out.push((format!("{path}: number changed"), setter(root, json!(n.as_u64().unwrap_or(0) + 1)))),
         Value::Bool(b) => out.push((format!("{path}: boolean flipped"), setter(root, json!(!b)))),
@@ -302,6 +306,32 @@ pub async fn op_mutate_signed(sc: Value) -> Value {
             let files = w.files(&dd2, &td2, None, None).await;
             if let Err(e) = w.loads(&files).await {
                 dev.push(json!({"class": "foreign-key-extra-member-refused", "level": lvl, "what": format!("consistent={consistent}: a delegation key carrying an unknown member in the object at `{lvl}` (key id = digest of the whole key, as another implementation computes it) is refused: {e}")}));
+            }
+        }
+        // ---- values whose spelling matters to the client although a lossy writer could fold it: a hashed-bin delegation (`path_hash_prefixes`)
+        // whose hex prefixes are changed to upper case after signing (an upper-case prefix matches no digest, so the delegation is switched off)
+        {
+            let mut t3 = w.targets_signed.clone();
+            {
+                let role = t3["delegations"]["roles"][0].as_object_mut().unwrap();
+                role.remove("paths");
+                role.insert("path_hash_prefixes".into(), json!(["ab", "0c", "ff"]));
+            }
+            let mut d3 = w.deleg_signed.clone();
+            d3["targets"] = json!({});
+            let dd3 = sign_value(&d3, &[&keys[4]]).await;
+            let td3 = sign_value(&t3, &[&keys[3]]).await;
+            cases += 1;
+            match w.loads(&w.files(&dd3, &td3, None, None).await).await {
+                Err(e) => dev.push(json!({"class": "hash-prefix-delegation-refused", "what": format!("consistent={consistent}: a correctly signed targets.json delegating by path_hash_prefixes does not load: {e}")})),
+                Ok(()) => {
+                    cases += 1;
+                    let mut m3 = td3.clone();
+                    m3["signed"]["delegations"]["roles"][0]["path_hash_prefixes"] = json!(["AB", "0C", "FF"]);
+                    if w.loads(&w.files(&dd3, &m3, None, None).await).await.is_ok() {
+                        dev.push(json!({"class": "mutation-accepted", "what": format!("consistent={consistent}: targets.json whose path_hash_prefixes were changed from [\"ab\",\"0c\",\"ff\"] to upper case after signing (original signatures kept, parents regenerated) is accepted: the client now sees a delegation that matches nothing")}));
+                    }
+                }
             }
         }
         // ---- benign changes: re-formatting, member order, unrelated signatures
